@@ -18,7 +18,7 @@ IDS_OVER = [2 ** 63, 2 ** 64 - 1]                                    # Atoi satu
 VALS = [0, 1, 2, 7, 10, 999, 1000, 2 ** 31, 2 ** 53 + 1, MAXI - 1, MAXI]
 VALS_OVER = [2 ** 63, 2 ** 64 - 2]
 KINDS = [("r", "i"), ("r", "c"), ("r", "f"), ("w", "i"), ("w", "c"), ("w", "f")]
-WIDE_ID = "C07-wide-pid"
+WIDE_ID = "C07-wide-pid"   # fixed in /repo (596c68b); its signature is kept to name the defect should it come back
 MAX_REPORT = 4   # violation records per monitor kind
 
 
@@ -436,8 +436,6 @@ class Reporter:
     def __init__(self, ck):
         self.ck = ck
         self.counts = {}
-        self.open_f = {f["id"]: f for f in ck.open_findings()}
-        self.wide_seen = []
 
     def violation(self, kind, what, replay, found_input=True):
         c = self.counts.get(kind, 0)
@@ -456,17 +454,20 @@ class Reporter:
             return True
         wide = [e for e in es if e[2] >= 1000]
         narrow = [e for e in es if e[2] < 1000]
-        is_wide = bool(wide) and roundtrip_ok(narrow, parsed)
-        if is_wide and WIDE_ID in self.open_f:
-            self.wide_seen.append(replay)
-            return False
+        glued = re.search(r"- \d{4,}:", replay.get("file_text", "")) is not None   # the signature of the defect in the file itself
+        is_wide = bool(wide) and glued and roundtrip_ok(narrow, parsed)
         main, opn = expected(es)
-        extra = (" — every event of the processes with id >= 1000 (%s) is missing from the parsed history: toJepsenLogEntry leaves no blank "
-                 "between a 4-digit process id and the keyword" % sorted({e[2] for e in wide})) if is_wide else ""
+        rp = dict(replay, expected_main=[list(x) for x in main], expected_open=opn, parsed=[list(x) for x in parsed])
+        extra = ""
+        if is_wide:
+            pids = sorted({e[2] for e in wide})
+            rp["failing_process_ids"] = pids
+            rp["regression_of"] = WIDE_ID
+            extra = (" — every event of the processes with id >= 1000 (%s) is missing from the parsed history: toJepsenLogEntry leaves no blank "
+                     "between a 4-digit process id and the keyword (defect %s is back)" % (pids, WIDE_ID))
         self.violation("monitor:roundtrip" + (":wide-pid" if is_wide else ""),
                        "%s: SaveAsJepsenLog -> ParseJepsenLog does not give back the recorded operations: %d recorded events -> expected %d checker "
-                       "events (+%d open), parsed %d%s" % (where, len(es), len(main), len(opn), len(parsed), extra),
-                       dict(replay, expected_main=[list(x) for x in main], expected_open=opn, parsed=[list(x) for x in parsed]))
+                       "events (+%d open), parsed %d%s" % (where, len(es), len(main), len(opn), len(parsed), extra), rp)
         return False
 
 
@@ -533,9 +534,14 @@ def run(ck):
             fcases, pcases = [], [(r["seed_case"], r["nprocs"], r["script"])]
     else:
         fcases = gen_format_cases(ck)
-        # corpus: witnesses of earlier findings run first
-        corpus = [([("r", "i", 0, 0), ("w", "i", 1500, 7), ("r", "c", 0, NIL), ("w", "f", 1500, 0)], True, "corpus"),
-                  ([("w", "i", 1000, 1), ("w", "c", 1000, 1), ("r", "i", 3, 0), ("r", "c", 3, 1)], True, "corpus")]
+        # corpus: witnesses of earlier findings run first (corpus/C07/*.json: {"events": [[t, r, pid, value], ...], "check": bool})
+        corpus = []
+        cdir = os.path.join(ROOT, "corpus", "C07")
+        for fn in sorted(os.listdir(cdir)) if os.path.isdir(cdir) else []:
+            if fn.endswith(".json"):
+                for w in json.load(open(os.path.join(cdir, fn)))["witnesses"]:
+                    corpus.append(([tuple(e) for e in w["events"]], bool(w.get("check")), "corpus"))
+        ck.cov["corpus_cases"] = len(corpus)
         fcases = corpus + fcases
         pcases = []
         nb = 260 if quick else 5000
@@ -601,11 +607,16 @@ def run(ck):
         return
     pitems, pitem_case, clean_b = [], [], []   # clean_b: no crash, no well-formedness monitor failure
     tot = {"ops": 0, "failed": 0, "timeouts": 0, "late_effects": 0, "gates": 0}
+    skipped = 0
     for ci, ((sd, np, cmds), b) in enumerate(zip(pcases, blocks)):
         ck.count_case(plines[ci], nontrivial=len(b["events"]) > 0)
         replay = {"engine": "recorder/protocol", "seed_case": sd, "nprocs": np, "script": cmds, "go_input_line": plines[ci],
                   "recorded_events": [list(e) for e in b["events"]]}
         ok = True
+        if b["status"] == "skipped":   # the executor gave up after repeated wait timeouts in earlier cases (reported there)
+            skipped += 1
+            clean_b.append(False)
+            continue
         if b["status"] != "ok":
             ok = False
             rep.violation("monitor:no_crash", "protocol run crashed: %s" % b["status"], replay)
@@ -622,7 +633,8 @@ def run(ck):
         clean_b.append(ok)
         if b["x"] is not None:
             status, text, parsed, chkres = b["x"]
-            rt = rep.roundtrip(b["events"], parsed, status, dict(replay, events=[list(e) for e in b["events"]], check=True), "protocol case (nprocs=%d)" % np)
+            rt = rep.roundtrip(b["events"], parsed, status, dict(replay, events=[list(e) for e in b["events"]], check=True,
+                                                                  file_text=text.decode("latin1")[:4000]), "protocol case (nprocs=%d)" % np)
             if chkres == "timeout":
                 ck.cov["checker_timeouts_b"] = ck.cov.get("checker_timeouts_b", 0) + 1
             elif rt and chkres != "1":
@@ -632,9 +644,12 @@ def run(ck):
         pitems.append("[rcase %d [%s]]" % (np, "; ".join(hobs)))
         pitem_case.append(ci)
     ck.cov["protocol_totals"] = tot
+    if skipped:
+        ck.cov["protocol_cases_skipped"] = skipped
+        if not ck.violations:
+            ck.violation("protocol executor gave up on %d cases after repeated wait timeouts, but no monitor failed" % skipped,
+                         {"kind": "executor", "tail": pres[-40:]}, found_input=False)
 
-    if rep.wide_seen:
-        ck.known(WIDE_ID, "toJepsenLogEntry leaves no blank after a process id >= 1000, the lines are dropped by ParseJepsenLog (%d witnesses)" % len(rep.wide_seen))
     ck.cov["monitor_failures"] = dict(rep.counts)
     ck.cov["exhaustive"] = False
     if fcases:
